@@ -232,6 +232,41 @@ def step (w : W) (toks : List String) : W × String :=
           if hasBad then ({ w with encs := aset w.encs id.toNat! e' }, "esc IndexError | " ++ showEnc e')
           else ({ w with encs := aset w.encs id.toNat! e', lastOut := aset w.lastOut id.toNat! b }, "ok " ++ toHex b ++ " | " ++ showEnc e')
         | r => (w, showFail r ++ " | " ++ showEnc e)
+  -- eev <id> <huff> tokens…: a generator that yields fields and, at `!size=N`, assigns header_table_size on the same encoder
+  | "eev" :: id :: huff :: toks =>
+    match aget w.encs id.toNat! with
+    | none => (w, "bad-id")
+    | some e =>
+      let evs : Option (List Event) := toks.mapM fun t =>
+        if t.startsWith "!size=" then (t.drop 6).toNat?.map Event.setSize
+        else (parseForm t).map Event.field
+      match evs with
+      | none => (w, "bad-op")
+      | some evs =>
+        match e.encodeEvents w.cfg.strict w.cfg.sticky evs (huff == "1") with
+        | .ok (b, e') => ({ w with encs := aset w.encs id.toNat! e', lastOut := aset w.lastOut id.toNat! b }, "ok " ++ toHex b ++ " | " ++ showEnc e')
+        | r => (w, showFail r ++ " | " ++ showEnc e)
+  -- eadd <id> <huff> <sensitive> <name> <value>: Encoder.add((name, value), sensitive, huffman) called directly
+  | ["eadd", id, huff, sens, n, v] =>
+    match aget w.encs id.toNat! with
+    | none => (w, "bad-id")
+    | some e =>
+      match e.add w.cfg.strict (parseHex n) (parseHex v) (sens == "1") (huff == "1") with
+      | .ok (b, e') => ({ w with encs := aset w.encs id.toNat! e', lastOut := aset w.lastOut id.toNat! b }, "ok " ++ toHex b ++ " | " ++ showEnc e')
+      | r => (w, showFail r ++ " | " ++ showEnc e)
+  -- copies of live objects (copy.deepcopy / pickle round trip): an independent object with the same state
+  | ["ecopy", id, src, _] =>
+    match aget w.encs src.toNat! with
+    | none => (w, "bad-id")
+    | some e => ({ w with encs := aset w.encs id.toNat! e, lastOut := aset w.lastOut id.toNat! ((aget w.lastOut src.toNat!).getD []) }, "ok | " ++ showEnc e)
+  | ["dcopy", id, src, _] =>
+    match aget w.decs src.toNat! with
+    | none => (w, "bad-id")
+    | some d => ({ w with decs := aset w.decs id.toNat! d }, "ok | " ++ showDec d)
+  | ["tcopy", id, src, _] =>
+    match aget w.tables src.toNat! with
+    | none => (w, "bad-id")
+    | some t => ({ w with tables := aset w.tables id.toNat! t }, "ok | " ++ showTable t)
   | ["edump", id] =>
     match aget w.encs id.toNat! with
     | none => (w, "bad-id")
